@@ -27,6 +27,42 @@ class Killed(BaseException):
     """the modelled process was killed at a step boundary"""
 
 
+class KillState:
+    """Two kinds of kill. `frozen`: the (only) process is dead, the file system stays as it is. For the concurrent
+    families additionally ONE loader (thread id kill_tid) can be killed before its own kill_at_t-th effectful call:
+    its later calls have no effect and whatever it buffered is lost, while the other loaders go on."""
+    _frozen = False
+    kill_tid = None
+    kill_at_t = None
+    sched = None
+
+    def init_kill(self):
+        self.dead, self.tstep = set(), {}
+
+    def cur_tid(self):
+        s = self.sched
+        return getattr(s.local, "tid", None) if s is not None else None
+
+    def owner_dead(self, tid):
+        return self._frozen or (tid is not None and tid in self.dead)
+
+    @property
+    def frozen(self):
+        return self._frozen or (bool(self.dead) and self.cur_tid() in self.dead)
+
+    @frozen.setter
+    def frozen(self, v):
+        self._frozen = v
+
+    def thread_kill_check(self, what):
+        t = self.cur_tid()
+        if self.kill_tid is not None and t == self.kill_tid:
+            self.tstep[t] = self.tstep.get(t, 0) + 1
+            if bool(self.kill_at_t == self.tstep[t]):
+                self.dead.add(t)
+                raise Killed(what)
+
+
 class Content:
     def __init__(self, kind, payload=None, complete=False):
         self.kind, self.payload, self.complete = kind, payload, complete
@@ -85,9 +121,10 @@ def data_for(origin):
     return a
 
 
-class ModelEnv:
+class ModelEnv(KillState):
     def __init__(self, ctx, env_set=True, data_home="/DATA-HOME"):
         self.ctx = ctx
+        self.init_kill()
         self.files, self.dirs = {}, {"/"}
         self.env_set, self.data_home = env_set, data_home
         self.step, self.frozen = 0, False
@@ -109,6 +146,8 @@ class ModelEnv:
     def restart(self):
         """a new process on the same file system"""
         self.frozen, self.kill_at, self.step = False, None, 0
+        self.kill_tid = self.kill_at_t = None
+        self.init_kill()
         self.attempt_outcome = lambda i: 0
         self.payload_klass = lambda i: 0
         self.attempts = 0
@@ -125,6 +164,7 @@ class ModelEnv:
         if self.kill_at is not None and bool(self.kill_at == self.step):
             self.frozen = True
             raise Killed(what)
+        self.thread_kill_check(what)
         return True
 
     # ---------------------------------------------------------------- os.path / os
@@ -221,8 +261,14 @@ class ModelEnv:
         if "w" in mode:
             if not env.effect("open-for-write", p):
                 return _Dead()
-            c = Content("pickle", None, complete=False)
-            env.files[p] = c
+            c = env.files.get(p)
+            if c is None:
+                c = Content("pickle", None, complete=False)
+                env.files[p] = c
+            else:
+                # same inode: opening for writing truncates the file in place; an earlier writer still open on it
+                # keeps writing into the same file (its buffer reaches it when that writer is flushed)
+                c.kind, c.payload, c.complete = "pickle", None, False
             return _Writer(env, p, c)
         env.access.append(p)
         if env.sched is not None and p in env.shared:
@@ -254,7 +300,7 @@ class ModelEnv:
         if not self.effect("pickle.dump", f.path):
             return
         # buffered write: the bytes reach the file only when the writer is flushed / closed / released
-        f.content.payload = obj
+        f.pending = obj
         f.buffered = True
 
     def pickle_load(self, f, *a, **kw):
@@ -327,10 +373,15 @@ class _Writer(_Reader):
     with-block, or by CPython releasing the last reference); a killed process never flushes."""
     buffered = False
     closed = False
+    pending = None
+
+    def __init__(self, env, path, content):
+        _Reader.__init__(self, env, path, content)
+        self.owner = env.cur_tid()       # the object may be released by another thread after its owner was killed
 
     def _flush(self):
-        if self.buffered and not self.env.frozen:
-            self.content.complete = True
+        if self.buffered and not self.env.owner_dead(self.owner):
+            self.content.kind, self.content.payload, self.content.complete = "pickle", self.pending, True
         self.closed = True
 
     def close(self):
